@@ -29,6 +29,29 @@ type RangeClaim struct {
 	Values  []string `json:"values"`
 	NoProof bool     `json:"no_proof"`
 	Proof   Proof    `json:"proof"`
+	// keys offered as the felt 2^251 + <bits> (no trie holds such a key; SetFelt(251, ·) / FeltToPath keep
+	// the low 251 bits)
+	FirstPlus bool   `json:"first_plus_2_251,omitempty"`
+	KeyPlus   []bool `json:"keys_plus_2_251,omitempty"`
+}
+
+func (c *RangeClaim) anyPlus() bool {
+	for _, p := range c.KeyPlus {
+		if p {
+			return true
+		}
+	}
+	return false
+}
+
+func (c *RangeClaim) keyPlus(i int) bool { return i < len(c.KeyPlus) && c.KeyPlus[i] }
+
+// keyTok renders a key for the driver: `<bits>` or `+<bits>`
+func plusTok(bits string, plus bool) string {
+	if plus {
+		return "+" + bits
+	}
+	return bits
 }
 
 func feltPtrs(bits []string, isBits bool) []*felt.Felt {
@@ -49,6 +72,9 @@ func feltPtrs(bits []string, isBits bool) []*felt.Felt {
 func realVerifyRange(c *RangeClaim) (more bool, class, msg string) {
 	root := hexFelt(c.Root)
 	first := bitsToFelt(c.First)
+	if c.FirstPlus {
+		first.Add(&first, &twoPow251)
+	}
 	type outcome struct {
 		more     bool
 		err      error
@@ -58,6 +84,11 @@ func realVerifyRange(c *RangeClaim) (more bool, class, msg string) {
 	call := func() outcome {
 		var o outcome
 		keys, values := feltPtrs(c.Keys, true), feltPtrs(c.Values, false)
+		for i := range keys {
+			if c.keyPlus(i) {
+				keys[i].Add(keys[i], &twoPow251)
+			}
+		}
 		perr, panicked, _ := lib.Try(func() error {
 			if c.Impl == "legacy" {
 				var ps *trie.ProofNodeSet
@@ -102,6 +133,14 @@ func claimTruth(c *RangeClaim) (isTrue, more bool) {
 	sort.Slice(sorted, func(i, j int) bool { return sorted[i].K < sorted[j].K })
 	if len(c.Keys) != len(c.Values) {
 		return false, false
+	}
+	// a listed key of 2^251 or more is in no trie; a first key of 2^251 or more bounds an interval that is
+	// empty (true for the empty list: no entry is at or right of it) and below no listed key
+	if c.anyPlus() || (c.FirstPlus && len(c.Keys) > 0) {
+		return false, false
+	}
+	if c.FirstPlus {
+		return true, false
 	}
 	for _, v := range c.Values {
 		if v == "0" {
@@ -217,7 +256,15 @@ func (c *ctx) rangeTrie(ti int, rr *lib.RNG, rcfg string, out chan<- batch) {
 		impl := []string{"legacy", "trie2"}[ti%2]
 		n := 1 + rr.Intn(12)
 		spec := TrieSpec{Impl: impl, Hash: "ped", Height: 251}
-		for _, k := range genKeys(rr, 251, n) {
+		keys := genKeys(rr, 251, n)
+		if ti%3 == 2 {
+			// keys below 2^195: key + 2^251 is then still a felt (the field prime is 2^251 + 17*2^192 + 1)
+			keys = genKeys(rr, 195, n)
+			for i := range keys {
+				keys[i] = strings.Repeat("0", 56) + keys[i]
+			}
+		}
+		for _, k := range keys {
 			spec.KVs = append(spec.KVs, KV{K: k, V: genValue(rr)})
 		}
 		sort.Slice(spec.KVs, func(i, j int) bool { return spec.KVs[i].K < spec.KVs[j].K })
@@ -228,6 +275,8 @@ func (c *ctx) rangeTrie(ti int, rr *lib.RNG, rcfg string, out chan<- batch) {
 		}
 		rootHex := fhex(&bt.root)
 		kvs := spec.KVs
+		var pending batch
+		eval := func(cl *RangeClaim) { c.evalRange(cl, &pending, rcfg, fmt.Sprint(ti)) }
 		mkClaim := func(kind, first string, lo, hi int, proof Proof) *RangeClaim {
 			cl := &RangeClaim{Impl: impl, Kind: kind, Trie: kvs, Root: rootHex, First: first, Proof: proof}
 			for i := lo; i <= hi; i++ {
@@ -236,13 +285,32 @@ func (c *ctx) rangeTrie(ti int, rr *lib.RNG, rcfg string, out chan<- batch) {
 			}
 			return cl
 		}
-		var pending batch
-		eval := func(cl *RangeClaim) { c.evalRange(cl, &pending, rcfg, fmt.Sprint(ti)) }
+		_, trieFacts := refRootFacts(hashFnOf("ped"), kvs, true)
 		rp := func(l, rk string) Proof {
 			p, err := bt.rangeProof(l, rk)
 			if err != nil {
 				res.Fatalf("range: GetRangeProof: %v", err)
 			}
+			// GetRangeProof against the model (`rangeProve`): the same nodes in the same order
+			var sb strings.Builder
+			sb.WriteString("pr " + map[bool]string{true: "1", false: "0"}[impl == "legacy"] + " 251 " + l + " " + rk)
+			for _, kv := range kvs {
+				sb.WriteString(" " + kv.K + "=" + kv.V)
+			}
+			sb.WriteString(" |")
+			for _, f := range trieFacts {
+				sb.WriteString(" " + f)
+			}
+			var norm func(string) string
+			if impl == "legacy" {
+				norm = func(m string) string { return strings.ReplaceAll(m, ":v", ":h") }
+			}
+			pc := p.clone()
+			pending.checks = append(pending.checks, check{norm: norm, line: sb.String(), impl: "root " + rootHex + pc.canon(false),
+				sig: impl + ":get-range-proof", replay: func() any {
+					return map[string]any{"section": "range", "impl": impl, "trie": kvs, "left": l, "right": rk, "proof": pc}
+				}})
+			res.Hit("range-proof-correspondence:" + impl)
 			return p
 		}
 		// 1. the whole trie, no proof
@@ -389,6 +457,56 @@ func (c *ctx) rangeTrie(ti int, rr *lib.RNG, rcfg string, out chan<- batch) {
 			pf := rp(f, f)
 			eval(&RangeClaim{Impl: impl, Kind: "empty-range-claimed-left-of-entries:first-" + divergenceShape(pf, rootHex, f), Trie: kvs, Root: rootHex, First: f, Proof: pf})
 		}
+		// 3a. keys offered as felts of 2^251 or more (the low 251 bits are those of genuine keys): no trie holds
+		// such a key, so every claim that lists one is false; a first key of 2^251 or more with an empty list is
+		// true (nothing is at or right of it)
+		if plusOK(kvs[len(kvs)-1].K) { // then every key of the trie is small enough
+			i := rr.Intn(len(kvs))
+			k := kvs[i].K
+			single := rp(k, k)
+			eval(&RangeClaim{Impl: impl, Kind: "single-element-key-plus-2^251", Trie: kvs, Root: rootHex, First: k, FirstPlus: true,
+				Keys: []string{k}, KeyPlus: []bool{true}, Values: []string{kvs[i].V}, Proof: single})
+			eval(&RangeClaim{Impl: impl, Kind: "single-element-key-plus-2^251-first-plain", Trie: kvs, Root: rootHex, First: k,
+				Keys: []string{k}, KeyPlus: []bool{true}, Values: []string{kvs[i].V}, Proof: single})
+			if first, ok := bitsAdd(kvs[len(kvs)-1].K, 1); ok && plusOK(first) {
+				eval(&RangeClaim{Impl: impl, Kind: "empty-range-first-plus-2^251", Trie: kvs, Root: rootHex, First: first, FirstPlus: true, Proof: rp(first, first)})
+			}
+			if len(kvs) >= 2 {
+				lo := rr.Intn(len(kvs) - 1)
+				hi := lo + 1 + rr.Intn(len(kvs)-lo-1)
+				cl := mkClaim("last-key-plus-2^251", kvs[lo].K, lo, hi, rp(kvs[lo].K, kvs[hi].K))
+				cl.KeyPlus = make([]bool, len(cl.Keys))
+				cl.KeyPlus[len(cl.Keys)-1] = true
+				eval(cl)
+				all := mkClaim("no-proof-key-plus-2^251", kvs[0].K, 0, len(kvs)-1, nil)
+				all.NoProof = true
+				all.KeyPlus = make([]bool, len(all.Keys))
+				all.KeyPlus[len(all.Keys)-1] = true
+				eval(all)
+				// [k_j, k_i + 2^251] with k_i < k_j: the felts increase, the paths decrease. Pairs of neighbours
+				// that are alone below their fork point first (there nothing else is unset and re-inserting
+				// the two gives the root back), then an arbitrary pair
+				var pairs [][2]int
+				for j := 1; j < len(kvs); j++ {
+					d := commonPrefixLen(kvs[j-1].K, kvs[j].K)
+					alone := (j < 2 || commonPrefixLen(kvs[j-2].K, kvs[j].K) < d) && (j+1 >= len(kvs) || commonPrefixLen(kvs[j-1].K, kvs[j+1].K) < d)
+					if alone {
+						pairs = append(pairs, [2]int{j - 1, j})
+					}
+				}
+				if len(pairs) > 0 {
+					pr := lib.Pick(rr, pairs)
+					eval(&RangeClaim{Impl: impl, Kind: "keys-wrap-2^251", Trie: kvs, Root: rootHex, First: kvs[pr[1]].K,
+						Keys: []string{kvs[pr[1]].K, kvs[pr[0]].K}, KeyPlus: []bool{false, true}, Values: []string{kvs[pr[1]].V, kvs[pr[0]].V},
+						Proof: rp(kvs[pr[0]].K, kvs[pr[1]].K)})
+				}
+				a := rr.Intn(len(kvs) - 1)
+				b := a + 1 + rr.Intn(len(kvs)-a-1)
+				eval(&RangeClaim{Impl: impl, Kind: "keys-wrap-2^251", Trie: kvs, Root: rootHex, First: kvs[b].K,
+					Keys: []string{kvs[b].K, kvs[a].K}, KeyPlus: []bool{false, true}, Values: []string{kvs[b].V, kvs[a].V},
+					Proof: rp(kvs[a].K, kvs[b].K)})
+			}
+		}
 		// 3b. single-element claim "key holds <hash of an inner node>": the honest proof of a present key
 		// with the on-path child of the root node re-typed as a value node (all hashes stay right)
 		{
@@ -460,24 +578,69 @@ func (c *ctx) evalRange(cl *RangeClaim, pending *batch, rcfg, id string) {
 	more, class, msg := realVerifyRange(cl)
 	res.Case("range/"+id+"/"+cl.Kind+"/"+cl.First+"/"+strings.Join(cl.Keys, ","), true)
 	res.Hit("range:" + impl + ":" + cl.Kind + ":" + class)
-	if impl == "trie2" && !cl.NoProof && (len(cl.Keys) == 0 || (len(cl.Keys) == 1 && cl.First == cl.Keys[0])) && len(cl.Keys) == len(cl.Values) {
-		// the two cases of trie2.VerifyRangeProof the Lean model covers
-		line := "r2 " + rcfg + " empty " + cl.Root + " " + cl.First + cl.Proof.toks(hashFnOf("ped"))
-		if len(cl.Keys) == 1 {
-			line = "r2 " + rcfg + " single " + cl.Root + " " + cl.First + " " + cl.Values[0] + cl.Proof.toks(hashFnOf("ped"))
+	implAns := class
+	if class == "ok" {
+		implAns = "ok 0"
+		if more {
+			implAns = "ok 1"
 		}
-		implAns := class
-		if class == "ok" {
-			implAns = "ok 0"
-			if more {
-				implAns = "ok 1"
+	}
+	plus := cl.FirstPlus || cl.anyPlus()
+	// the whole exported function in the model (`verifyRange`): the preamble, the choice of the case and the
+	// conversion of the keys are the model's, not the harness'
+	r2f := func(withFacts bool) string {
+		var sb strings.Builder
+		sb.WriteString("r2f " + rcfg + " " + c.rangeCk + " " + cl.Root + " " + plusTok(cl.First, cl.FirstPlus))
+		if cl.NoProof {
+			sb.WriteString(" noproof")
+		} else {
+			sb.WriteString(" proof")
+		}
+		for i := range cl.Keys {
+			sb.WriteString(" " + plusTok(cl.Keys[i], cl.keyPlus(i)) + "=" + cl.Values[i])
+		}
+		sb.WriteString(" |")
+		if !cl.NoProof {
+			sb.WriteString(cl.Proof.toks(hashFnOf("ped")))
+		}
+		sb.WriteString(" |")
+		if withFacts {
+			_, facts := refRootFacts(hashFnOf("ped"), cl.Trie, true)
+			for _, f := range facts {
+				sb.WriteString(" " + f)
 			}
 		}
-		cc := cl
-		pending.checks = append(pending.checks, check{line: line, impl: implAns, sig: "trie2:range-model:" + cl.Kind, replay: func() any { return cc }})
-		res.Hit("range-model:" + cl.Kind)
+		return sb.String()
 	}
-	if impl == "trie2" && !cl.NoProof && len(cl.Keys) >= 1 && len(cl.Keys) == len(cl.Values) && !(len(cl.Keys) == 1 && cl.First == cl.Keys[0]) {
+	wellFormed := len(cl.Keys) == len(cl.Values)
+	singleShape := !cl.NoProof && len(cl.Keys) == 1 && cl.First == cl.Keys[0] && cl.FirstPlus == cl.keyPlus(0)
+	multiShape := !cl.NoProof && len(cl.Keys) >= 1 && !singleShape
+	// /repo as it is (no key range check): in the general case a key of 2^251 or more gives the code two
+	// paths that are not increasing — outside the domain of the model's `fill` (the code panics or rebuilds
+	// with left > right); there the oracle alone decides
+	outsideModel := multiShape && plus && c.rangeCk == "0" && cl.Kind != "last-key-plus-2^251"
+	if impl == "trie2" && wellFormed && !multiShape {
+		// the empty range, the single element, the no-proof case
+		cc := cl
+		fam := "trie2:range-model:"
+		if cl.NoProof {
+			fam = "trie2:range-model:all:"
+		}
+		pending.checks = append(pending.checks, check{line: r2f(cl.NoProof), impl: implAns, sig: fam + cl.Kind, replay: func() any { return cc }})
+		res.Hit("range-model:" + strings.TrimPrefix(fam, "trie2:range-model:") + cl.Kind)
+	}
+	if impl == "trie2" && wellFormed && multiShape && !outsideModel {
+		// the dispatch and the preamble of the general case: every claim with a key of 2^251 or more, every
+		// claim about the preamble, and the honest claims of the random section
+		switch {
+		case plus, cl.Kind == "keys-unsorted", cl.Kind == "first-not-below-last", cl.Kind == "zero-value", cl.Kind == "duplicate-key",
+			honestKind(cl.Kind) && !strings.HasPrefix(id, "s"):
+			cc := cl
+			pending.checks = append(pending.checks, check{line: r2f(true), impl: implAns, sig: "trie2:range-model:whole:" + cl.Kind, replay: func() any { return cc }})
+			res.Hit("range-model:whole:" + cl.Kind)
+		}
+	}
+	if impl == "trie2" && wellFormed && multiShape && !plus {
 		// the general case (two edge paths) against the Lean model; the as-is code misbehaves on node
 		// sets with a shared node object (known finding), the model has no aliasing: skipped there
 		if rcfg[0] == '0' && proofSharesNode(cl.Proof) {
@@ -505,39 +668,10 @@ func (c *ctx) evalRange(cl *RangeClaim, pending *batch, rcfg, id string) {
 				}
 				res.Hit("range-model:multi-with-hashes-of-the-rebuilt-trie")
 			}
-			implAns := class
-			if class == "ok" {
-				implAns = "ok 0"
-				if more {
-					implAns = "ok 1"
-				}
-			}
 			cc := cl
 			pending.checks = append(pending.checks, check{line: sb.String(), impl: implAns, sig: "trie2:range-model:multi:" + cl.Kind, replay: func() any { return cc }})
 			res.Hit("range-model:multi:" + cl.Kind)
 		}
-	}
-	if impl == "trie2" && cl.NoProof && len(cl.Keys) == len(cl.Values) {
-		var sb strings.Builder
-		sb.WriteString("r2 all " + cl.Root + " 251")
-		for i := range cl.Keys {
-			sb.WriteString(" " + cl.Keys[i] + "=" + cl.Values[i])
-		}
-		sb.WriteString(" |")
-		_, facts := refRootFacts(hashFnOf("ped"), cl.Trie, true)
-		for _, f := range facts {
-			sb.WriteString(" " + f)
-		}
-		implAns := class
-		if class == "ok" {
-			implAns = "ok 0"
-			if more {
-				implAns = "ok 1"
-			}
-		}
-		cc := cl
-		pending.checks = append(pending.checks, check{line: sb.String(), impl: implAns, sig: "trie2:range-model:all:" + cl.Kind, replay: func() any { return cc }})
-		res.Hit("range-model:all:" + cl.Kind)
 	}
 	if impl == "legacy" && !isTrue && (class == "ok" || class == "err") {
 		c.legacyMu.Lock()
@@ -571,6 +705,9 @@ func (c *ctx) evalRange(cl *RangeClaim, pending *batch, rcfg, id string) {
 		if sigKind != cl.Kind {
 			site = sigKind
 		}
+		if plus {
+			site = "key-plus-2^251"
+		}
 		res.Violate(lib.Violation{Sig: impl + ":range:panic:" + site,
 			What: fmt.Sprintf("%s.VerifyRangeProof %ss (claim: %s): %s", impl, class, cl.Kind, msg), Replay: cl})
 	case honest && class != "ok":
@@ -583,6 +720,17 @@ func (c *ctx) evalRange(cl *RangeClaim, pending *batch, rcfg, id string) {
 		res.Violate(lib.Violation{Sig: impl + ":range:" + sigKind + ":has-more-wrong",
 			What: fmt.Sprintf("%s.VerifyRangeProof reports more=%v, the trie has more=%v (%s)", impl, more, moreTruth, cl.Kind), Replay: cl})
 	}
+}
+
+// plusOK: key + 2^251 is still a felt (the field prime is 2^251 + 17*2^192 + 1): keys below 2^195
+func plusOK(bits string) bool { return strings.HasPrefix(bits, strings.Repeat("0", 56)) }
+
+func commonPrefixLen(a, b string) int {
+	n := 0
+	for n < len(a) && n < len(b) && a[n] == b[n] {
+		n++
+	}
+	return n
 }
 
 func honestKind(k string) bool { return strings.HasPrefix(k, "honest") }
@@ -728,6 +876,32 @@ func leafIsNodeHashClaim(rr *lib.RNG) *RangeClaim {
 	q = append(q, n)
 	return &RangeClaim{Impl: "trie2", Kind: "single-element-leaf-value-is-a-node-hash", Trie: spec.KVs, Root: fhex(&bt.root), First: key,
 		Keys: []string{key}, Values: []string{"7"}, Proof: q}
+}
+
+// probeRangeKeyCheck: does trie2.VerifyRangeProof refuse a key of 2^251 or more ("1"), or does it verify the
+// low 251 bits instead ("0": the honest single-element proof of k is accepted for the felt k + 2^251)
+func (c *ctx) probeRangeKeyCheck() string {
+	spec := TrieSpec{Impl: "trie2", Hash: "ped", Height: 251, KVs: []KV{
+		{K: strings.Repeat("0", 251), V: "2"}, {K: strings.Repeat("0", 250) + "1", V: "3"}, {K: "1" + strings.Repeat("0", 250), V: "5"}}}
+	bt, err := buildTrie(&spec)
+	if err != nil {
+		c.res.Fatalf("range probe: %v", err)
+		return "0"
+	}
+	key := spec.KVs[1].K
+	p, err := bt.rangeProof(key, key)
+	if err != nil {
+		c.res.Fatalf("range probe: %v", err)
+		return "0"
+	}
+	_, class, _ := realVerifyRange(&RangeClaim{Impl: "trie2", Root: fhex(&bt.root), First: key, FirstPlus: true,
+		Keys: []string{key}, KeyPlus: []bool{true}, Values: []string{"3"}, Proof: p})
+	ck := "1"
+	if class == "ok" {
+		ck = "0"
+	}
+	c.res.SetExtra("trie2_range_refuses_keys_above_2_251", ck == "1")
+	return ck
 }
 
 // probeRangeCfg finds out which variant of trie2.VerifyRangeProof's path resolution the tree under test
